@@ -546,6 +546,57 @@ func pagerCase(text string, w, h int, scrolls []int) {
 	r.Distinct(explore.Hash("pager", name))
 }
 
+// pagerResizeCase: one pager drawn at a first width, scrolled, then drawn at a second width: the second
+// frame must be the one a fresh pager gives at that width, from a clamped offset.
+func pagerResizeCase(text string, w1, w2, h int, scrolls int) {
+	r.Count("pager_cases", 1)
+	name := fmt.Sprintf("text %q width %d then %d height %d after %d x ScrollDown", text, w1, w2, h, scrolls)
+	bad := func(clause, why string) {
+		r.Violation("C19|pager|"+clause, len(text)*100+w1*10+w2, detail{Widget: "widgets/pager", Config: name, Why: why})
+	}
+	m := &pager.Model{Segments: []vaxis.Segment{{Text: text}}}
+	fresh := &pager.Model{Segments: []vaxis.Segment{{Text: text}}}
+	var all, shown []string
+	panicked, site, msg := explore.Guard(func() {
+		root := host.Vx.Window()
+		root.Clear()
+		fresh.Draw(root.New(0, 0, w2, 12))
+		host.Vx.Render()
+		all = rowsOf(12, w2)
+		root.Clear()
+		m.Draw(root.New(0, 0, w1, h))
+		for i := 0; i < scrolls; i++ {
+			m.ScrollDown()
+		}
+		root.Clear()
+		m.Draw(root.New(0, 0, w1, h))
+		root.Clear()
+		m.Draw(root.New(0, 0, w2, h))
+		host.Vx.Render()
+		shown = rowsOf(h, w2)
+	})
+	if panicked {
+		bad("panic|"+site, msg)
+		return
+	}
+	L := len(refLines(text, w2)) + strings.Count(text, "\n")
+	if m.Offset < 0 || (m.Offset > 0 && m.Offset > L-h) {
+		bad("offset|after-width-change", fmt.Sprintf("Offset %d with at most %d lines at the new width and height %d", m.Offset, L, h))
+		return
+	}
+	for y := 0; y < h; y++ {
+		wantRow := strings.Repeat(" ", w2)
+		if m.Offset+y < len(all) {
+			wantRow = all[m.Offset+y]
+		}
+		if strings.TrimRight(shown[y], " ") != strings.TrimRight(wantRow, " ") {
+			bad("window|after-width-change", fmt.Sprintf("at Offset %d row %d shows %q, content row %d at the new width is %q", m.Offset, y, shown[y], m.Offset+y, wantRow))
+			return
+		}
+	}
+	r.Distinct(explore.Hash("pager-resize", name))
+}
+
 func main() {
 	r = explore.Start("C19")
 	dcs := dynConfigs()
@@ -621,6 +672,21 @@ func main() {
 							}
 						}
 					}
+					// the window width changes between two draws of one pager
+					if l <= maxLen-1 {
+						for w1 := 1; w1 <= 4; w1++ {
+							for w2 := 1; w2 <= 4; w2++ {
+								if w1 == w2 {
+									continue
+								}
+								for h := 1; h <= 2; h++ {
+									for sc := 0; sc <= 4; sc += 2 {
+										pagerResizeCase(prefix, w1, w2, h, sc)
+									}
+								}
+							}
+						}
+					}
 				}
 				if l == maxLen {
 					return
@@ -643,7 +709,7 @@ func main() {
 	trans += r.Get("pager_cases")
 	r.Finish(explore.Coverage{
 		States: -1, Transitions: trans, Traces: trans, Evaluations: trans,
-		Rule:       "widgets/list.List: every operation sequence to depth n over {Down, Up, Home, End, PageDown/PageUp(h=0..3), SetItems(0..4), Draw(h=0..4)} from 0..4 items and, for 3 and 4 items, from the list scrolled to its end in a window of 1 or 2 rows; vxfw/list.Dynamic: every sequence to depth n over 20 operations (NextItem/PrevItem, j/k/arrows through CaptureEvent, wheel, SetCursor, SetPendingScroll, item replacement, Draw) for 96 configurations (item heights, gap 0/1, viewport height 1..4, gutter); pager: every text of <= m symbols over {a, 世, LF, SP, CR LF} x width 1..4 x height 1..3 x 10 scroll sequences. Oracles: no panic, index in range, children consecutive/contiguous/non-overlapping, selected item inside the viewport after a selection change and a draw, pager content complete (incl. an unterminated last line and wide glyphs at the row end) and offset clamped; operation sequences are not merged (state key = the path)",
+		Rule:       "widgets/list.List: every operation sequence to depth n over {Down, Up, Home, End, PageDown/PageUp(h=0..3), SetItems(0..4), Draw(h=0..4)} from 0..4 items and, for 3 and 4 items, from the list scrolled to its end in a window of 1 or 2 rows; vxfw/list.Dynamic: every sequence to depth n over 20 operations (NextItem/PrevItem, j/k/arrows through CaptureEvent, wheel, SetCursor, SetPendingScroll, item replacement, Draw) for 96 configurations (item heights, gap 0/1, viewport height 1..4, gutter); pager: every text of <= m symbols over {a, 世, LF, SP, CR LF} x width 1..4 x height 1..3 x 10 scroll sequences, and (texts one symbol shorter) every pair of different widths drawn one after the other with 0, 2 or 4 scroll steps in between: the second frame must equal a fresh pager's at that width from a clamped offset. Oracles: no panic, index in range, children consecutive/contiguous/non-overlapping, selected item inside the viewport after a selection change and a draw, pager content complete (incl. an unterminated last line and wide glyphs at the row end) and offset clamped; operation sequences are not merged (state key = the path)",
 		Exhaustive: true,
 		Bounds:     map[string]any{"list_depth": r.Pick(3, 4), "dynamic_depth": r.Pick(3, 4), "dynamic_configs": dynRange, "pager_max_len": r.Pick(5, 6)},
 	})
